@@ -15,7 +15,7 @@ def generate():
     kinds = {"QMark", "Plus", "Star", "Bang", "And", "Or", "LParen", "RParen"}
     if {k for _, k in singles} != kinds or len(singles) != 8:
         missing.append(f"{rel}: next_token single-character token table (found {singles})")
-    m = need(t, r"' ' \| '\\t' \| '\\n' => continue,", "next_token skipped whitespace set", rel)
+    need(t, r"c if c\.is_whitespace\(\) => continue,", "next_token skips char::is_whitespace", rel)
     need(t, r"if p\.is_whitespace\(\) \|\| Self::RESERVED_CHARS\.contains\(p\)", "read_hop_predicate break condition", rel)
     need(t, r"Grouping::LeftToRight => op_binding_power \+ 1,", "left-to-right rhs binding power", rel)
     need(t, r"if left_binding_power > op_binding_power \{", "binding power comparison", rel)
@@ -61,7 +61,6 @@ Definition CH_AND : N := {tok.get('And', 0)}.
 Definition CH_OR : N := {tok.get('Or', 0)}.
 Definition CH_LPAREN : N := {tok.get('LParen', 0)}.
 Definition CH_RPAREN : N := {tok.get('RParen', 0)}.
-Definition SKIP_WS : list N := [32; 9; 10].
 Definition ASN_BITS : N := {bits}.
 Definition ASN_BITS_PER_PART : N := {bpp}.
 Definition ASN_DECIMAL_MAX : N := 4294967295.
